@@ -369,6 +369,7 @@ def cache_cases(draw, modules=('std', 'safe'), algos=tuple(H.ALGOS), maxsizes=(1
     }
     if attach_later:
         case['attach_later'] = True
+        case['attach_cached'] = draw(st.booleans())
     elif relpath_pct and backend.split('_', 1)[-1].startswith(('dir_', 'file_')) and draw(st.integers(0, 99)) < relpath_pct:
         # directory / single-file archive named by a relative path, and the program changes its working directory during the history
         case['relpath'] = draw(st.sampled_from(['existing', 'new']))
